@@ -7,9 +7,13 @@ import AutomataVerif.Model.NFAOps
 import AutomataVerif.Proofs.NFATable
 import AutomataVerif.Proofs.NFAOpsUnary
 
+open AV.AL
+
 namespace AV
 
 set_option linter.unusedSectionVars false
+
+namespace AL
 
 /-- `itertools.product` as a set. -/
 theorem mem_lprod {β γ : Type} {xs : List β} {ys : List γ} {p : β} {q : γ} :
@@ -21,6 +25,10 @@ theorem mem_lprod {β γ : Type} {xs : List β} {ys : List γ} {p : β} {q : γ}
     exact ⟨hx, hy⟩
   · rintro ⟨hp, hq⟩
     exact ⟨p, hp, q, hq, rfl, rfl⟩
+
+end AL
+
+open AL
 
 namespace NFA
 
